@@ -105,6 +105,10 @@ type Exec struct {
 	instrs    int64
 	bvInts    bool
 	maxViol   int
+	xsample   int // cross-check every n-th decided obligation (0 = off)
+	xcount    int
+	xchecked  int
+	xdisagree []string
 }
 
 func NewExec(prog *ssa.Program, sol *Solver) *Exec {
